@@ -1,7 +1,7 @@
 """C01 — fitting recovers the parameters that generated the data."""
 from __future__ import annotations
 
-from .. import fitclauses
+from .. import fitclauses, fitrules
 
 EXPLANATION = (
     "Recovery itself (optimizer behaviour over real numbers) is not "
@@ -31,6 +31,12 @@ def r4_models(ctx):
     r2_off_contact(ctx)
 
 
+def r6_new_guess_refits(ctx):
+    fitrules.setitem_invalidation(
+        ctx, why=" (a second fit started from a corrected guess returns "
+        "the result of the first one)")
+
+
 RULES = [
     ("C01-R1", "a supplied initial guess reaches the optimiser",
      fitclauses.clause_guess_delivery),
@@ -41,4 +47,6 @@ RULES = [
      r4_models),
     ("C01-R5", "contact-point relative fits start from a full-segment "
      "estimate of the contact point", fitclauses.clause_relative_cp),
+    ("C01-R6", "an edited initial guess or setting leads to a new fit "
+     "(stale results are dropped)", r6_new_guess_refits),
 ]
